@@ -44,7 +44,8 @@ def run(ctx):
             dict(label="bar/thermal", dev="bar", current=3.0, field=0.4, adaptive=False, dt=dt, solve_time=12 * dt - dt / 2, skip_time=5 * dt - dt / 2),
         ]
     recordings = [dict(k=1), dict(k=2, out="temp"), dict(k=3, probes=0), dict(k=5, probes=3, progress=3),
-                  dict(k=7, out="temp", probes=0), dict(k=100, progress=0), dict(k=4, progress=1), dict(k=6, progress=7)]
+                  dict(k=7, out="temp", probes=0), dict(k=100, progress=0), dict(k=4, progress=1), dict(k=6, progress=7),
+                  dict(k=3, monitor=True), dict(k=2, pause=True, out="temp")]
     jobs, fam = [], []
     for ph in physics:
         for rc in recordings:
@@ -84,7 +85,9 @@ def run(ctx):
             nruns += 1
             run_id = "k%s/%s/p%s/pr%s%s" % (r["args"].get("k"), r["args"].get("out", "path"), r["args"].get("probes", 2),
                                             r["args"].get("progress", "-"), ("/split@%d" % len(r["frames"]) if r["args"].get("split") else ""))
-            run_id = f"{nruns}:{run_id}"
+            run_id = f"{nruns}:{run_id}" + ("/monitor" if r["args"].get("monitor") else "") + ("/pause" if r["args"].get("pause") else "")
+            if r["args"].get("monitor") and not r.get("monitor_launched"):
+                raise core.MachineryFailure("C11: monitor=True run did not try to launch the monitor (vacuous)")
             for fr in r["frames"]:
                 if fr.get("seed_before") or fr.get("seed_after"):
                     # the seed Solution handed to a continuation must not be modified by it
